@@ -1,5 +1,6 @@
 """Structural rules for the reclamation schemes (C01, C02, C17, C18).  Each rule is an instance of K2 (order on all paths),
 K4 (guarded action) or presence, stated over resolved callees and field declarations."""
+import re
 from . import flow
 from .flow import chain, guarded, present, absent
 
@@ -1083,3 +1084,63 @@ def epoch_adopt_resync(ctx):
         ctx.check(ok2, rid, P + "#local_epoch", "the block's local_epoch is stored from the global epoch on every path",
                   "there is a path from acquire_entry() to the return on which the adopted block's local_epoch is not set to the global epoch", fn.where(acq[0]), fn=fn,
                   path=flow.describe_path(fn, p2))
+
+
+def new_block_init_before_link(ctx):
+    """dynamic HP/HE strategies: a freshly allocated slot block is initialised while it is still unlinked"""
+    for rid, pat in (("HP.block-init", R + "detail::dynamic_hp_thread_control_block::allocate_new_hazard_pointer_block"),
+                     ("HE.block-init", R + "detail::dynamic_he_thread_control_block::allocate_new_hazard_eras_block")):
+        for fn in flow._shapes(ctx, pat):
+            inits = [e for b, i, e, n in fn.events() if n["k"] == "call" and n.get("callee", "").split("::")[-1] == "initialize_block"]
+            links = []
+            for b, i, e, n in fn.events():
+                if n["k"] == "bin" and n.get("op") == "=":
+                    k = fn.kids(e)
+                    if fn.nodes[k[0]]["k"] == "member" and fn.nodes[k[0]].get("leaf") == "next":
+                        links.append(e)
+            if not inits or not links:
+                ctx.broken.append("%s: initialize_block call / store to block->next not found" % pat)
+                continue
+            ok = all(fn.before(i_, l_) and not fn.event_reaches(l_, i_) for i_ in inits for l_ in links)
+            ctx.check(ok, rid, pat + "#new-block|initialised-before-linked", "the new block is initialised before its next link is set",
+                      "the new block's 'next' is pointed at the existing blocks BEFORE initialize_block() runs: initialize_block ends with initialize_next_block(), "
+                      "which re-threads every following block (meant for control-block re-use) - the slots of the older blocks, in use by live guards, lose their "
+                      "published value and are put back on the free list (guards silently stop protecting, slots are handed out twice)", fn.where(links[0]), fn=fn)
+
+
+def acquire_snapshot_whole_value(ctx):
+    """C15: guard_ptr::acquire yields a snapshot (pointer AND mark) the source held during the call"""
+    rid = "GUARD.acquire-snapshot"
+    ctx.rule(rid, "guard_ptr::acquire / acquire_if_equal of every scheme: a test that lets the operation keep the guard's current value (early return without "
+                  "assigning the freshly loaded value) compares the whole marked_ptr (operator== of marked_ptr), never only the addresses (.get() == .get()): "
+                  "after a mark-only change of the source the guard would keep a (pointer, mark) pair the source did not hold during the call")
+    n_seen = 0
+    for fn in ctx.facts.fns:
+        if not re.match(r"^xenium::reclamation::[a-z_]+::guard_ptr::(acquire|acquire_if_equal)$", fn.pat):
+            continue
+        for b, blk in fn.blocks.items():
+            if "cond" not in blk or b not in fn.live_blocks():
+                continue
+            for x in fn.subtree(blk["cond"]):
+                n = fn.nodes[x]
+                k = fn.kids(x)
+                is_raw_eq = n["k"] == "bin" and n.get("op") in ("==", "!=") and len(k) == 2
+                is_mp_eq = n["k"] == "call" and n.get("callee", "").split("::")[-1] in ("operator==", "operator!=")
+                if not (is_raw_eq or is_mp_eq):
+                    continue
+                ops = k if is_raw_eq else k[-2:]
+                if len(ops) != 2:
+                    continue
+                s0, s1 = flow.srcs(fn, ops[0]), flow.srcs(fn, ops[1])
+                cur = lambda s: "field:ptr" in s
+                fresh = lambda s: any(t.startswith("load:") for t in s)
+                if not ((cur(s0) and fresh(s1) and not cur(s1)) or (cur(s1) and fresh(s0) and not cur(s0))):
+                    continue
+                n_seen += 1
+                strips = any(fn.nodes[y]["k"] == "call" and fn.nodes[y].get("callee", "").split("::")[-1] == "get" for o in ops for y in fn.subtree(o))
+                ctx.check(not (is_raw_eq and strips), rid, "%s#keep-current|whole-value" % fn.pat, "the guard's value is compared as a whole marked_ptr",
+                          "%s compares only the addresses of the freshly loaded value and the guard's current value (%s): when only the mark of the source changed, the "
+                          "guard keeps its stale mark - a value the source did not hold during the call; acquire_if_equal(src, snapshot) right afterwards returns "
+                          "false without any concurrent writer" % (fn.pat.split("::")[-1], fn.expr(x)[:60]), fn.where(x), fn=fn)
+    if n_seen < 1:
+        ctx.broken.append("GUARD.acquire-snapshot: no 'keep the current value' test found in any guard_ptr::acquire (hazard_pointer has one)")
